@@ -10,7 +10,7 @@ from .core import Quiescent, Sim
 EVENT_READ = selectors.EVENT_READ
 EVENT_WRITE = selectors.EVENT_WRITE
 
-MAX_STEPS_PER_INSTANT = 20000
+MAX_STEPS_PER_INSTANT = 5000
 
 
 class SimSelector(selectors._BaseSelectorImpl):
@@ -20,6 +20,7 @@ class SimSelector(selectors._BaseSelectorImpl):
         self.loop: Optional["SimLoop"] = None
         self._instant = -1.0
         self._instant_steps = 0
+        self._last_seq = -1
 
     def _ready_events(self) -> list:
         ready = []
@@ -46,13 +47,16 @@ class SimSelector(selectors._BaseSelectorImpl):
         sim = self.sim
         loop = self.loop
         sim.steps += 1
-        if sim._now == self._instant:
+        if sim._now == self._instant and sim.seq == self._last_seq:
             self._instant_steps += 1
             if self._instant_steps > MAX_STEPS_PER_INSTANT:
                 sim.probe("spin.detected")
-                raise SpinError(f"more than {MAX_STEPS_PER_INSTANT} loop iterations at t={sim._now}")
+                raise SpinError(
+                    f"more than {MAX_STEPS_PER_INSTANT} loop iterations without any recorded event at t={sim._now}"
+                )
         else:
             self._instant = sim._now
+            self._last_seq = sim.seq
             self._instant_steps = 0
         target = None
         if timeout is not None and timeout > 0:
